@@ -440,6 +440,23 @@ class Evaluator(CallMixin, StmtMixin):
                     return frozenset({k})
                 if self.prog.is_subclass(ci, "TypedDict"):
                     return frozenset({"DICT"})
+                if ci.is_protocol() and ci.is_runtime_checkable():
+                    return frozenset(kk for kk in ALL_KINDS if self.U.kind_isinstance(kk, TypeRef(repo=ci)))
+                if ci.name == "MetadataNode":
+                    return frozenset({"META", "HTMLDEP"})
+                return None
+            # a module-level type alias such as TagNode = Union[...]
+            depth = getattr(self, "_alias_depth", 0)
+            if depth < 4:
+                kk, vv = self.prog.resolve(mod, n)
+                if kk == "const":
+                    m2, e2 = vv
+                    if isinstance(e2, (ast.Subscript, ast.BinOp)) :
+                        self._alias_depth = depth + 1
+                        try:
+                            return self.kinds_from_annotation(e2, m2)
+                        finally:
+                            self._alias_depth = depth
             return None
         return None
 
@@ -770,6 +787,8 @@ class Evaluator(CallMixin, StmtMixin):
 
     def cmp_count(self, coll: Any, kinds: FrozenSet[str], op: str, c: int) -> bool:
         """len(view) <op> c with c a small constant; forks on count classes."""
+        if self.run.cfg.coarse_counts:
+            return self.run.decide(("len-cmp", _uid(coll), op, c))
         ek = self.coll_elem_kinds(coll)
         kinds = kinds & ek
         parts = self.split_view(coll, kinds)
